@@ -20,6 +20,22 @@ extern int rt_assert_failed;
 #define RT_ASSUME(c) do { if (!(c)) abort(); } while (0)
 #define RT_ASSERT(c, msg) do { if (!(c)) rt_assert_failed++; } while (0)
 #endif
+/* C16 frame: around a const query the wrapper registers up to four non-heap objects the container owns (verif_frame_begin); every heap object
+   that exists at that moment belongs to the frame too.  Every store of the translated code in between is asserted to hit neither (a data race
+   needs a write; a same-value store is a write the byte snapshot cannot see).  Heap objects allocated while the frame is on may be written. */
+extern int rt_frame_on; extern const void *rt_frame_obj[4]; extern const void *rt_frame_fresh[24]; extern unsigned rt_frame_nfresh;
+#ifdef __CPROVER__
+#define RT_FRAME_HIT(p, i) (rt_frame_obj[i] != 0 && __CPROVER_same_object((const void *)(p), rt_frame_obj[i]))
+#define RT_FRAME_FRESH1(p, i) ((i) < rt_frame_nfresh && __CPROVER_same_object((const void *)(p), rt_frame_fresh[i]))
+#define RT_FRAME_FRESH(p) (RT_FRAME_FRESH1(p, 0) || RT_FRAME_FRESH1(p, 1) || RT_FRAME_FRESH1(p, 2) || RT_FRAME_FRESH1(p, 3) || RT_FRAME_FRESH1(p, 4) || RT_FRAME_FRESH1(p, 5) || RT_FRAME_FRESH1(p, 6) || RT_FRAME_FRESH1(p, 7) || RT_FRAME_FRESH1(p, 8) || RT_FRAME_FRESH1(p, 9) || RT_FRAME_FRESH1(p, 10) || RT_FRAME_FRESH1(p, 11) || RT_FRAME_FRESH1(p, 12) || RT_FRAME_FRESH1(p, 13) || RT_FRAME_FRESH1(p, 14) || RT_FRAME_FRESH1(p, 15) || RT_FRAME_FRESH1(p, 16) || RT_FRAME_FRESH1(p, 17) || RT_FRAME_FRESH1(p, 18) || RT_FRAME_FRESH1(p, 19) || RT_FRAME_FRESH1(p, 20) || RT_FRAME_FRESH1(p, 21) || RT_FRAME_FRESH1(p, 22) || RT_FRAME_FRESH1(p, 23))
+/* (expression macros, no do-while: CBMC counts a do { } while (0) as a loop, one per store) */
+#define RT_FRAME_STORE(p) ((void)(rt_frame_on ? (__CPROVER_assert(!(RT_FRAME_HIT(p, 0) || RT_FRAME_HIT(p, 1) || RT_FRAME_HIT(p, 2) || RT_FRAME_HIT(p, 3)) && (!__CPROVER_DYNAMIC_OBJECT((const void *)(p)) || RT_FRAME_FRESH(p)), "PROP: C16 no store into the storage owned by the container during a const query (a write is what a data race needs)"), 0) : 0))
+void rt_frame_note(const void *p);
+#define RT_FRAME_NOTE_ALLOC(p) rt_frame_note(p)
+#else
+#define RT_FRAME_STORE(p) ((void)0)
+#define RT_FRAME_NOTE_ALLOC(p) ((void)0)
+#endif
 static inline fp80_t FP80_POW2(int e){ fp80_t r=1; while(e>0){r*=2;e--;} while(e<0){r/=2;e++;} return r; }
 /* C++ allows nullptr - nullptr and comparing equal pointers of any provenance; keep CBMC's same-object checks for the rest */
 #define RT_PTRDIFF(p, q) (((char*)(p) == (char*)(q)) ? 0L : (long)((char*)(p) - (char*)(q)))
